@@ -147,6 +147,10 @@ def init_job(interp, c, case):
     q.set_current_time(t0)
     _report(c, s_and(q.next_queue_time == t0 + dt, q.start_index == 0),
             "set_current_time puts the first slot one step after the given time", "set_current_time", rp, syms)
+    # the constructor itself with an arbitrary current time (not only multiples of dt): first slot one step later
+    q2 = S.ns["ArrayDelayQueue"](np.zeros((R, C), dtype=object), dt, t0)
+    _report(c, s_and(q2.next_queue_time == t0 + dt, q2.start_index == 0, q2.dt == dt),
+            "ArrayDelayQueue(array, dt, t) puts the first slot at t + dt for every t", "constructor", dict(rp, op="construct"), syms)
 
 
 def retime_job(interp, c, case):
